@@ -25,11 +25,11 @@ import (
 const c34SigDup = "duplicate bucket entry after add/stuff inserted a node still parked in replacements"
 
 type c34state struct {
-	tab    *dht.VerifTable
-	ids    map[uint64]dht.NodeID
-	labels map[dht.NodeID]uint64
-	self   uint64
-	parked bool // a parked node has been inserted into entries in this case
+	tab     *dht.VerifTable
+	ids     map[uint64]dht.NodeID
+	labels  map[dht.NodeID]uint64
+	self    uint64
+	parked  bool // a parked node has been inserted into entries in this case
 	buckets map[uint64]int
 }
 
